@@ -50,6 +50,7 @@ def space(tier):
         # one node deeper with few leaves at nesting depth 1
         seen |= set(p2)
         out += [(p, "trace+dedup+trace") for p in G.slim_programs(b["nodes"] + 1) if p not in seen]
+        out += [(p, "trace") for p in G.slim_two_acc_programs(b["nodes"] + 1) if p not in seen]
     return out
 
 
